@@ -566,11 +566,16 @@ func Mutate(t *rapid.T, ns *models.Namespace, tag string) string {
 			}
 		}
 	case "user_dup":
+		if len(ns.Users) == 0 {
+			break
+		}
 		ns.Users = append(ns.Users, &models.User{UserName: ns.Users[0].UserName, Password: "other", RWFlag: 2})
 	case "users_empty":
 		ns.Users = nil
 	case "user_rwflag":
-		ns.Users[0].RWFlag = 0
+		if len(ns.Users) > 0 {
+			ns.Users[0].RWFlag = 0
+		}
 	case "down_after_negative":
 		ns.DownAfterNoAlive = -1
 	case "slice_capacity":
